@@ -72,6 +72,41 @@ Example C18_premises_satisfiable :
   is_request_method_understood q = true /\ req_only_if_cached (parse_cc (q_hdr q)) = true.
 Proof. vm_compute; split; reflexivity. Qed.
 
+(* ---------- history level ---------- *)
+From HC Require Import Run Spec.
+From HC.Proofs Require Import FreshProofs DecisionProofs ProvProofs TimeProofs SrcProofs.
+
+(* Along EVERY sequential history from an empty store, an exchange whose request is a plain GET carrying only-if-cached
+   logs no origin call, neither in the foreground nor in background work it starts, and what it returns is the
+   synthesised 504 or the served form of a stored entry with a known source (Src) that does not need validation by
+   the specification at that instant. *)
+Theorem C18_history : forall cfg h t0 script k gq obs,
+  let all := run_history cfg h (init_world t0 script) in
+  let L := flat_map (fun x => x_events x ++ x_bg_events x) all in
+  nth_error h k = Some gq -> nth_error all k = Some obs ->
+  is_request_method_understood (snd gq) = true -> req_only_if_cached (parse_cc (q_hdr (snd gq))) = true ->
+  ~ has_call (x_events obs) /\ ~ has_call (x_bg_events obs) /\
+  forall o, x_result obs = Done o ->
+    o = OResp response_504 \/
+    exists e, Src (GXl L) e /\ o = served_outcome (snd gq) e (x_t0 obs) /\
+      (valid_date (e_hdr e) -> needs_validation (view_of e) (snd gq) (x_t0 obs) = false).
+Proof.
+  intros cfg h t0 script k gq obs all L Hk Ho Hm Hoic.
+  assert (Hcalls : ~ has_call (x_events obs) /\ ~ has_call (x_bg_events obs)).
+  { clear L. subst all. revert k Hk Ho. generalize (init_world t0 script). induction h as [|[gap q] h IH]; intros w k Hk Ho; [destruct k; discriminate|].
+    cbn [run_history] in Ho.
+    destruct (exchange cfg q _) as [obs0 w2] eqn:E. destruct k as [|k].
+    - cbn in Hk, Ho. injection Hk as <-. injection Ho as <-. cbn [snd] in *.
+      eapply exchange_no_origin; [apply C18_no_origin; [exact Hm|exact Hoic]|exact E].
+    - cbn in Hk, Ho. eapply IH; eassumption. }
+  destruct Hcalls as [Hfg Hbg]. split; [exact Hfg|split; [exact Hbg|]]. intros o Hr.
+  destruct (history_safeX L cfg h (init_world t0 script)) as [_ H]; [intros k' e' E; discriminate|apply incl_refl|].
+  destruct (H k gq obs o Hk Ho Hr Hfg) as [E|(e & Hs & Hd & E)]; [left; exact E|right].
+  exists e. split; [exact Hs|split; [exact E|]]. intros Hv.
+  apply decision_needs_no_validation; [exact Hv|eapply Src_status; exact Hs|exact Hd].
+Qed.
+Print Assumptions C18_history.
+
 (* ---------- tie to the source: the part of the model this property rests on is what /verif/translate derives from
    /repo's Go source on this run (Generated/*.v are rewritten before every build; see DESIGN.md section 9) ---------- *)
 From HC.Generated Require Import SrcHit.
